@@ -47,7 +47,9 @@ def draw_cfg(st):
            "n_ops": 2 + st.choose(7, "n_ops")}
     if mode == "memory":
         cfg["use_serialize"] = st.choose(3, "use_serialize") == 2
-        cfg["w"] = [[6, 3, 2, 2, 0, 1, 1], [6, 4, 2, 1, 2, 1, 0], [8, 2, 1, 0, 0, 0, 3]][st.choose(3, "mix")]
+        # op mixes: balanced, serialize-heavy, reset-heavy, reset-vs-write only, flush-vs-traceback-write
+        cfg["w"] = [[6, 3, 2, 2, 0, 1, 1], [6, 4, 2, 1, 2, 1, 0], [8, 2, 1, 0, 0, 0, 3],
+                    [4, 2, 2, 0, 0, 0, 5], [1, 1, 6, 0, 0, 5, 1]][st.choose(5, "mix")]
     else:
         cfg["text"] = bool(st.choose(2, "text"))
     return cfg
